@@ -85,9 +85,12 @@ def _s(b):
 # kernel-format encoder (what the generator claims the kernel prints)
 # ------------------------------------------------------------------------------------------------
 
+HOST_BYTEORDER = [sys.byteorder]     # the byte order of the (simulated) host that prints the tables
+
+
 def enc_ip(packed):
     """__be32 words printed with %08X as host integers (net/ipv4/tcp_ipv4.c get_tcp4_sock, tcp_ipv6.c)."""
-    return "".join("%08X" % int.from_bytes(packed[i:i + 4], sys.byteorder) for i in range(0, len(packed), 4))
+    return "".join("%08X" % int.from_bytes(packed[i:i + 4], HOST_BYTEORDER[0]) for i in range(0, len(packed), 4))
 
 
 def enc_addr(packed, port):
@@ -1059,6 +1062,7 @@ def plan(tier, seed):
     for part in range(2 if tier == "quick" else 8):
         shards.append(dict(kind="threads", seed=seed, part=part, count=40 if tier == "quick" else 600))
     shards.append(dict(kind="gen_no_v6_bind", seed=seed, count=300 if tier == "quick" else 6000))
+    shards.append(dict(kind="gen_big_endian", seed=seed, count=300 if tier == "quick" else 6000))
     return shards
 
 
@@ -1085,6 +1089,20 @@ def run_shard(shard):
     elif shard["kind"] == "gen":
         for i in range(shard["start"], shard["start"] + shard["count"]):
             run_case(gen_case(harness.rng_for(shard["seed"], "c11", i)), acc)
+    elif shard["kind"] == "gen_big_endian":
+        # the same tables as a big-endian kernel (s390x, ppc64, mips) prints them, read by psutil as it runs there: its
+        # byte-order constant is what sys.byteorder gives on such a host
+        import psutil._pslinux as pl
+        old = pl.LITTLE_ENDIAN
+        pl.LITTLE_ENDIAN = False
+        HOST_BYTEORDER[0] = "big"
+        try:
+            for i in range(shard["count"]):
+                run_case(gen_case(harness.rng_for(shard["seed"], "c11be", i)), acc)
+            acc.count("cases_as_on_a_big_endian_host", shard["count"])
+        finally:
+            pl.LITTLE_ENDIAN = old
+            HOST_BYTEORDER[0] = sys.byteorder
     elif shard["kind"] == "gen_no_v6_bind":
         from psutil._common import supports_ipv6
         if supports_ipv6():
